@@ -40,12 +40,14 @@ WILD_SPELLINGS = ["0::0", "::0", "0::", "", "0:0:0:0:0:0:0:0", "0000:0000:0000:0
 
 SCRIPTS = {}          # request id -> list of (tag, accept)
 LOGS = {}             # request id -> list of events
-_ID = re.compile(r"id(\d+)x")
+# request ids carry the process id: traffic of another harness process can never be mistaken for ours
+_PID = os.getpid()
+_ID = re.compile(r"id(\d+n\d+)x")
 
 
 def rid_of(name):
     m = _ID.search(name)
-    return int(m.group(1)) if m else None
+    return m.group(1) if m else None
 
 
 _SERIAL = itertools.count(1)
@@ -76,13 +78,15 @@ def make_ctx(tag, name):
     return (FalsyCtx if rid_of(name) in FALSY else Ctx)(tag, name)
 
 
-RESULT_KINDS = ["ok", "bare404", "bare403", "bare500", "empty404", "404hdr", "404body"]
+RESULT_KINDS = ["ok", "bare404", "bare403", "bare500", "empty404", "404hdr", "404body", "raise", "raise-os"]
 
 
 def visible(kind, tag):
     """what the client is to see from a handler result: b"<status>:<body unless it is http.server's error page>" """
     if kind == "ok":
         return b"200:" + tag
+    if kind.startswith("raise"):           # handle() raises: the 500 page, and nobody else is asked
+        return b"500:"
     if kind.startswith("bare"):
         return kind[4:].encode() + b":"
     if kind in ("empty404", "404hdr"):
@@ -157,7 +161,7 @@ class RecHttp(HS.HttpRequestHandler):
     def handle(self, request_info, body, context):
         rid, h = _spec(self.index, request_info.uri)
         if rid is None:          # name mangled beyond recognition: find the request through the header
-            rid = int(request_info.headers.get("X-Verif-Id", "-1"))
+            rid = request_info.headers.get("X-Verif-Id", "-1")
             h = (SCRIPTS.get(rid) or [("?", True)] * MAXH)[self.index]
         LOGS.setdefault(rid, []).append(
             ("handle", self.index, request_info.uri, _ctx(context), request_info.client_address,
@@ -166,6 +170,10 @@ class RecHttp(HS.HttpRequestHandler):
         tag = h[0].encode()
         if kind == "ok":
             return (http.HTTPStatus.OK, None, io.BytesIO(tag))
+        if kind == "raise":
+            raise RuntimeError("scripted handle failure")
+        if kind == "raise-os":
+            raise FileNotFoundError(2, "scripted backend failure")
         if kind in ("bare404", "bare403", "bare500"):
             return (http.HTTPStatus(int(kind[4:])), None, None)
         if kind == "empty404":
@@ -189,7 +197,11 @@ _tftp = {}
 _http = {}
 _tmp = None
 
-TFTP_TPL = ("client={{ request_info.client_address|join(',') }}\nserver={{ request_info.server_address|join(',') }}\n"
+LIB_TPL = ("{% macro who() %}{% if request_info is defined %}sees {{ request_info.client_address|join(',') }} {{ request_info.uri }}"
+           "{% elif id is defined or data is defined %}sees id/data{% else %}nothing{% endif %}{% endmacro %}")
+# a macro library imported without context must see NOTHING of the request (per-request data must not be parked in
+# engine-wide state such as Environment.globals or a cached module)
+TFTP_TPL = ("{% import 'lib.txt' as lib %}lib={{ lib.who() }}\nclient={{ request_info.client_address|join(',') }}\nserver={{ request_info.server_address|join(',') }}\n"
             "uri={{ request_info.uri }}\nkeys={{ request_info.keys()|sort|join(',') }}\n")
 HTTP_TPL = (TFTP_TPL + "method={{ request_info.method }}\n"
             "{% for k, v in request_info.headers.items() %}hdr={{ k }}={{ v }}\n{% endfor %}"
@@ -208,6 +220,8 @@ def _tmpdir():
             f.write(TFTP_TPL)
         with open(os.path.join(_tmp, "http.txt"), "w") as f:
             f.write(HTTP_TPL)
+        with open(os.path.join(_tmp, "lib.txt"), "w") as f:
+            f.write(LIB_TPL)
     return _tmp
 
 
@@ -270,6 +284,43 @@ def platform_has_pktinfo():
     return _PLATFORM_PKTINFO
 
 
+_port_iter = itertools.count(12000 + (os.getpid() % 190) * 100)
+
+
+def free_udp_port():
+    """TftpServer sets SO_REUSEADDR on its UDP socket; with bind_port=0 the kernel may then hand out a port that another
+    SO_REUSEADDR UDP socket (a TFTP server of ANOTHER harness process) already uses, and datagrams go astray between the
+    processes.  So the harness picks ports itself, below the ephemeral range, and checks each with a socket that does
+    not set SO_REUSEADDR."""
+    for port in _port_iter:
+        if port > 31900:
+            break
+        t = socket.socket(socket.AF_INET6, socket.SOCK_DGRAM)
+        try:
+            t.bind(("::", port))
+            return port
+        except OSError:
+            continue
+        finally:
+            t.close()
+    return 0
+
+
+def port_is_shared(port):
+    """more than one UDP socket bound to this port (possible only for the bind_port=0 servers of the restart cases)"""
+    n = 0
+    for fn in ("/proc/net/udp6", "/proc/net/udp"):
+        try:
+            with open(fn) as f:
+                for ln in f.readlines()[1:]:
+                    parts = ln.split()
+                    if len(parts) > 1 and parts[1].rsplit(":", 1)[-1].lower() == "%04x" % port:
+                        n += 1
+        except OSError:
+            pass
+    return n > 1
+
+
 def tftp_server(bind, pktinfo, filemode=False, restart=None):
     """restart: None = shared instance; "first" = dedicated instance; "restart" = stop() and start() that instance"""
     key = (bind, pktinfo, filemode, restart is not None)
@@ -278,7 +329,8 @@ def tftp_server(bind, pktinfo, filemode=False, restart=None):
             hs = [FH.TftpFileRequestHandler({"request_path": "/t", "root_dir": _tmpdir(), "template": "jinja"})]
         else:
             hs = [RecTftp(i) for i in range(MAXH)]
-        s = TS.TftpServer(hs, bind, 0, default_timeout=2.0, max_retries=1)
+        # restart cases need bind_port=0 (a new port after stop()/start()); all others get a port of our own
+        s = TS.TftpServer(hs, bind, 0 if restart is not None else free_udp_port(), default_timeout=2.0, max_retries=1)
         s.start()
         atexit.register(s.stop)
         if not platform_has_pktinfo():
@@ -293,8 +345,11 @@ def tftp_server(bind, pktinfo, filemode=False, restart=None):
         _tftp[key] = (s, s._socket.getsockname())
     if restart == "restart":
         s = _tftp[key][0]
-        s.stop()
-        s.start()                         # same object, bind_port=0: a new ephemeral port
+        for _try in range(5):
+            s.stop()
+            s.start()                     # same object, bind_port=0: a new ephemeral port
+            if not port_is_shared(s._socket.getsockname()[1]):
+                break
         if not pktinfo:
             s._have_pktinfo = False
             time.sleep(0.25)
@@ -342,7 +397,7 @@ def tftp_request(c):
         time.sleep(0.12)                        # the receive loop is now blocked in the proxy's recvmsg
         proxy.script = [c["anc_mode"]]
     fam = socket.AF_INET if c["fam"] == 4 else socket.AF_INET6
-    dst = V4 if c["fam"] == 4 else V6
+    dst = dst_of(c)
     s = socket.socket(fam, socket.SOCK_DGRAM)
     s.settimeout(_patience())
     try:
@@ -369,15 +424,16 @@ def tftp_request(c):
 def http_request(c):
     srv, sockname = http_server(c["bind"], c["proto"] == 3, c.get("restart"))
     fam = socket.AF_INET if c["fam"] == 4 else socket.AF_INET6
-    dst = V4 if c["fam"] == 4 else V6
+    dst = dst_of(c)
     s = socket.socket(fam, socket.SOCK_STREAM)
     s.settimeout(_patience())
     cport = 0
     buf = []
     try:
+        s.bind((dst, 0))                      # the client's own address = the address it talks to (as the UDP client does)
         s.connect((dst, sockname[1]))
         cport = s.getsockname()[1]
-        req = ("%s %s HTTP/1.0\r\n" % (c["method"], c["name"].decode("latin-1"))
+        req = ("%s %s HTTP/1.%d\r\n" % (c["method"], c["name"].decode("latin-1"), c.get("httpver") or 0)
                + "".join("%s: %s\r\n" % kv for kv in c["headers"]) + "\r\n")
         s.sendall(req.encode("latin-1"))
         while True:
@@ -397,8 +453,13 @@ def http_request(c):
 
 
 # ----------------------------------------------------------------------------- check
-def mapped(fam):
-    return V4M if fam == 4 else V6
+def dst_of(c):
+    """the local address the client talks to"""
+    return (c.get("dst4") or V4) if c["fam"] == 4 else V6
+
+
+def mapped(c):
+    return ("::ffff:" + dst_of(c)) if c["fam"] == 4 else V6
 
 
 class C10(Check):
@@ -430,9 +491,9 @@ class C10(Check):
                 yield bind, fam
 
     def mk(self, proto, bind, fam, pktinfo, handlers, stem=b"", tail=b"", mail=False, method="GET", headers=None,
-           restart=None, debug=False, repeat=None, anc_mode=None, falsy_ctx=False):
-        rid = next(self._seq)
-        token = b"id%dx" % rid
+           restart=None, debug=False, repeat=None, anc_mode=None, falsy_ctx=False, httpver=0, host="one", dst4=None):
+        rid = "%dn%d" % (_PID, next(self._seq))
+        token = b"id%sx" % rid.encode()
         if proto in (1, 3):
             name = (stem if stem else b"/") + token + tail
         else:
@@ -441,10 +502,13 @@ class C10(Check):
             name = stem + b"t/tftp.txt"
         if proto == 3:
             name = b"/t/http.txt"
-        hd = [("Host", "verif"), ("X-Verif-Id", str(rid))] + list(headers or [])
+        # requests a standard client library never produces: no Host field, two, an empty one - with HTTP/1.0 and HTTP/1.1
+        hosts = {"one": [("Host", "verif")], "none": [], "two": [("Host", "verif"), ("Host", "other:81")], "empty": [("Host", "")],
+                 "mixed": [("host", "a"), ("HOST", "b")]}[host]
+        hd = hosts[:1] + [("X-Verif-Id", str(rid))] + list(headers or []) + hosts[1:]
         return {"proto": proto, "bind": bind, "fam": fam, "pktinfo": pktinfo, "rid": rid, "name": name,
-                "mail": mail, "method": method, "headers": hd if proto in (1, 3) else [], "restart": restart, "debug": debug, "repeat": repeat, "anc_mode": anc_mode, "falsy_ctx": falsy_ctx,
-                "handlers": [("h%d-%d" % (i, rid),) + ((bool(a[0]), a[1]) if isinstance(a, tuple) else (bool(a), "ok"))
+                "mail": mail, "method": method, "headers": hd if proto in (1, 3) else [], "restart": restart, "debug": debug, "repeat": repeat, "anc_mode": anc_mode, "falsy_ctx": falsy_ctx, "httpver": httpver, "dst4": dst4,
+                "handlers": [("h%d-%s" % (i, rid),) + ((bool(a[0]), a[1]) if isinstance(a, tuple) else (bool(a), "ok"))
                              for i, a in enumerate(handlers)]}
 
     def gen(self, tier, rng):
@@ -518,6 +582,21 @@ class C10(Check):
                 yield self.mk(1, "::", 6, True, v, tail=b"/inf?x=1", debug="info")
             yield self.mk(2, "::", 6, True, (True,), debug=lvl)
             yield self.mk(3, "::", 6, True, (True,), debug=lvl, headers=[("X-Rep", "1")])
+        # the local address a request arrives on, at the edges of the octets (the loopback network is a /8: all of these are
+        # ordinary unicast host addresses of this machine)
+        for d4 in ("127.0.0.255", "127.0.255.255", "127.255.255.254", "127.0.0.0", "127.0.1.0", "127.1.2.3", "127.0.0.254", "127.224.0.1", "127.0.0.2"):
+            for pk in (True, False):
+                for v in ((True,), (False, False)):
+                    yield self.mk(0, "::", 4, pk, v, stem=b"d4/", dst4=d4)
+            yield self.mk(1, "::", 4, True, (False, True), tail=b"/d4", dst4=d4)
+            yield self.mk(2, "::", 4, True, (True,), dst4=d4)
+        # HTTP/1.0 and HTTP/1.1 request lines with one, no, two, an empty Host field: every one is dispatched like any other
+        for ver in (0, 1):
+            for host in ("one", "none", "two", "empty", "mixed"):
+                for v in some + [(False, False)]:
+                    yield self.mk(1, "::", 6, True, v, tail=b"/hv", httpver=ver, host=host)
+                yield self.mk(1, V6, 6, True, (False, True), tail=b"/hv", httpver=ver, host=host, method="POST", debug=True)
+                yield self.mk(3, "::", 4, True, (True,), httpver=ver, host=host, repeat=2)
         # stop() and start() on ONE server object (bind_port=0: new port): the handler must see the new address
         for bind, fam in (("::", 6), ("::", 4), (V6, 6)):
             for pk in (True, False):
@@ -710,6 +789,7 @@ class C10(Check):
         want = ["client_address", "server_address", "uri"] + (["headers", "method"] if o["proto"] == 3 else [])
         if kv.get("keys", "") != ",".join(sorted(want)):
             return [[b"keys", [1, kv.get("keys", "").encode()]]]
+        lib_note = b"" if kv.get("lib", "<missing>") == "nothing" else (" !macro library imported without context: %s" % kv.get("lib")).encode("latin-1", "replace")
         out = [[b"client_address", addr(kv.get("client", ""), False)]]
         if o["proto"] == 3:
             for k, want_v in o.get("expect_hdr", {}).items():
@@ -718,11 +798,11 @@ class C10(Check):
             out.append([b"headers", [2, hdrs]])
             out.append([b"method", [1, kv.get("method", "").encode()]])
         out.append([b"server_address", addr(kv.get("server", ""), True)])
-        out.append([b"uri", [1, kv.get("uri", "").encode("latin-1", "replace")]])
+        out.append([b"uri", [1, kv.get("uri", "").encode("latin-1", "replace") + lib_note]])
         return out
 
     def line(self, c, o):
-        dst = mapped(c["fam"])
+        dst = mapped(c)
         raw = socket.inet_pton(socket.AF_INET6, dst)
         sn = o["sockname"]
         sockname = [sn[0].encode(), SPORT] + list(sn[2:])
@@ -753,7 +833,7 @@ class C10(Check):
     def show(self, c):
         return {"proto": ["tftp", "http", "tftp+file-handler", "http+file-handler"][c["proto"]], "bind": c["bind"],
                 "client_family": "IPv%d" % c["fam"], "pktinfo": c["pktinfo"], "name": c["name"].decode("latin-1"),
-                "mail_mode": c["mail"], "method": c["method"], "headers": c["headers"],
+                "mail_mode": c["mail"], "method": c["method"], "http_version": "1.%d" % (c.get("httpver") or 0), "headers": c["headers"], "ipv4_destination": c.get("dst4"),
                 "server_log_level": {None: "WARNING (default)", False: "WARNING (default)", True: "DEBUG", "info": "INFO"}.get(c.get("debug")), "restart": c.get("restart"),
                 "same_request_sent_n_times(last one observed)": c.get("repeat"),
                 "recvmsg_ancillary_data_for_this_datagram": c.get("anc_mode"), "falsy_context_objects": bool(c.get("falsy_ctx")),
@@ -761,10 +841,10 @@ class C10(Check):
 
     def renamed(self, c, **kw):
         d = dict(c, **kw)
-        rid = next(self._seq)
-        d["name"] = re.sub(rb"id\d+x", b"id%dx" % rid, d["name"])
+        rid = "%dn%d" % (_PID, next(self._seq))
+        d["name"] = re.sub(rb"id\d+n\d+x", b"id%sx" % rid.encode(), d["name"])
         d["headers"] = [(k, str(rid) if k == "X-Verif-Id" else v) for k, v in d["headers"]]
-        d["handlers"] = [(re.sub(r"-\d+$", "-%d" % rid, t), a, k) for t, a, k in d["handlers"]]
+        d["handlers"] = [(re.sub(r"-\d+n\d+$", "-%s" % rid, t), a, k) for t, a, k in d["handlers"]]
         d["rid"] = rid
         return d
 
